@@ -116,3 +116,40 @@ Fixpoint new_client (fuel : nat) (req msize : N) (replies : list vreply)
 
 Definition new_client_top (msize : N) (replies : list vreply) :=
   new_client (N.to_nat p9_highestSupportedVersion + 2) p9_highestSupportedVersion msize replies.
+
+(** ---- a connection's negotiation state over a whole session ----
+    Every Tversion on a connection (first or later, any tag) runs the same handler on the same
+    connState: an accepted request overwrites (messageSize, version); a refused one leaves them. *)
+Record cstate := { cs_msize : N; cs_version : N }.
+Definition cstate0 : cstate := {| cs_msize := 0; cs_version := 0 |}.
+
+Definition session_step (st : cstate) (req : N * string) : cstate * (N * string) :=
+  match tversion_handle (fst req) (snd req) with
+  | (r, Some (m, v)) => ({| cs_msize := m; cs_version := v |}, r)
+  | (r, None) => (st, r)
+  end.
+
+Fixpoint session_run (st : cstate) (reqs : list (N * string)) : cstate * list (N * string) :=
+  match reqs with
+  | [] => (st, [])
+  | q :: rest => let '(st1, r) := session_step st q in
+                 let '(st2, rs) := session_run st1 rest in (st2, r :: rs)
+  end.
+
+(** the same over the wire: a frame longer than the current limit (4 MiB before the first
+    accepted Tversion) ends the connection without a reply; frame = 7 + 4 + 2 + |version| *)
+Definition frame_limit (st : cstate) : N := if cs_msize st =? 0 then p9_maximumLength else cs_msize st.
+Definition tversion_frame_size (s : string) : N := 13 + N.of_nat (String.length s).
+
+Fixpoint wire_session (st : cstate) (reqs : list (N * string)) : list (N * string) :=
+  match reqs with
+  | [] => []
+  | q :: rest =>
+      if frame_limit st <? tversion_frame_size (snd q) then []          (* ConnError: Handle returns *)
+      else let '(st1, r) := session_step st q in r :: wire_session st1 rest
+  end.
+
+(** WithMessageSize(m) is refused unless m > largestFixedSize; 0 stands for "option not given" *)
+Definition with_message_size (m : N) : option N :=
+  if m =? 0 then Some p9_DefaultMessageSize
+  else if m <=? largestFixedSize then None else Some m.
